@@ -4,6 +4,7 @@
 package c16
 
 import (
+	"regexp"
 	"bytes"
 	"crypto/sha256"
 	"encoding/json"
@@ -20,6 +21,8 @@ import (
 
 	"verifharness/kit"
 )
+
+var numericVersion = regexp.MustCompile(`[0-9]+\.[0-9]+\.[0-9]+`)
 
 func TestMain(m *testing.M) { kit.Main(m) }
 
@@ -208,6 +211,18 @@ func runPure(o Opts) pureRes {
 	for _, a := range []string{"Encryption", "Integrity", "CryptoMethods", "ValidCommands", "SessionExpires"} {
 		if attr(me.Policy(), a) != attr(ie.Policy(), a) {
 			r.viol = fmt.Sprintf("policy attribute %s differs: minter %s importer %s", a, attr(me.Policy(), a), attr(ie.Policy(), a))
+			return r
+		}
+	}
+	// the version the identifier carries is the peer's NUMERIC version (documented: ShortVersion, e.g. "25.4.0"),
+	// whichever form - bare or "$CondorVersion: 25.4.0 <date> BuildID: ... PackageID: 25.4.0-0.847437 ... $" - the minter was given
+	if o.Version != "" {
+		wantShort := numericVersion.FindString(o.Version)
+		if i := strings.Index(info, `ShortVersion="`); i < 0 {
+			r.viol = fmt.Sprintf("the identifier's policy text carries no ShortVersion although the minter was given version %q (info %q)", o.Version, info)
+			return r
+		} else if gotShort := info[i+len(`ShortVersion="`):]; !strings.HasPrefix(gotShort, wantShort+`"`) {
+			r.viol = fmt.Sprintf("the identifier's policy text carries ShortVersion=%q..., the numeric version of %q is %q", strings.SplitN(gotShort, `"`, 2)[0], o.Version, wantShort)
 			return r
 		}
 	}
@@ -403,7 +418,8 @@ func genOpts(t *rapid.T) Opts {
 		Enc: rapid.IntRange(0, 2).Draw(t, "enc"), Integ: rapid.IntRange(0, 2).Draw(t, "integ"),
 		Ciphers: rapid.SampledFrom([]string{"", "AES", "AESGCM", "AES,BLOWFISH", "AES, 3DES,BLOWFISH", "AESGCM,AES", "BLOWFISH,AES", "3DES"}).Draw(t, "ciphers"),
 		LifeSecs: rapid.SampledFrom([]int64{0, 0, 45, 60, 3600, 86400, 315360000}).Draw(t, "life"),
-		Version: rapid.SampledFrom([]string{"", "$CondorVersion: 25.4.0 2025-10-31 BuildID: 847437 PackageID: 25.4.0-0.847437 GitSHA: a6507f91 RC $", "24.0.1", "9.0.17"}).Draw(t, "version"),
+		Version: rapid.SampledFrom([]string{"", "$CondorVersion: 25.4.0 2025-10-31 BuildID: 847437 PackageID: 25.4.0-0.847437 GitSHA: a6507f91 RC $", "24.0.1", "9.0.17",
+			"$CondorVersion: 23.10.2 2024-09-01 $", "$CondorVersion: 9.12.0 Oct 31 2022 BuildID: 612345 PackageID: 9.12.0-1.el8 $"}).Draw(t, "version"),
 		PeerAddr: rapid.SampledFrom([]string{"", "<10.0.0.9:9618>", "schedd.example.org:9618"}).Draw(t, "peeraddr"),
 		Tag:      rapid.SampledFrom([]string{"", "", "tagA"}).Draw(t, "tag"),
 		PeerFQU:  rapid.SampledFrom([]string{"", "schedd@pool"}).Draw(t, "peerfqu"),
